@@ -8,6 +8,37 @@ NOTE_COMMON = ("Trusted base: go/packages + go/types + go/ssa + VTA call graph o
 
 # id -> (text, technique, note, design_ref)   ; ids absent here go to not_applicable with NA[id]
 CHECKS = {
+ "C01": ("Dispatch/agreement rules over the single function that computes a cell's text: order of the dynamic-type tests against the documented precedence (with go/types deciding which concrete arms an interface arm would shadow), the value each arm stores against its documented source, definite assignment of the text on every path through each arm, a path-enumerated abstract interpretation of Update showing empty == (text is empty) at every exit, plus who-writes/who-calls rules (item stored only at construction, only Update touches the item, accessors return the snapshot). "
+         "Decides the dispatch for every dynamic type at once (inputs only select an arm); does not decide what fmt's %v prints.",
+         "type-switch arm order/source agreement on SSA, must-assign dataflow, path-enumerated abstract interpretation, who-writes/who-calls", "Trusts fmt for the default arm.", "DESIGN.md 3 C01"),
+ "C02": ("Who-writes and pairing rules on the bookkeeping state, for every history: rows append-only by one row; row/column numbers are the list length right after the installing append, stored on the appended object; every function that grows a row or installs one brings the column count up to the row's cell count (only the resize helper writes the count, it never decreases, and len(columns)==nColumns+1 is proved at every writer); CellAt returns exactly &rows[r-1].cells[c-1], nil iff error, with its index obligations discharged; Column is non-nil exactly on 0..nColumns; the row slice never escapes. "
+         "Decides the writer/reader pairings; the induction from them to the numeric counts is argued, not mechanised.",
+         "writers-of-field analysis, append/len pairing by linear normalisation, index-safety obligations, alias-escape check", "Fields are unexported, so every writer is in the module.", "DESIGN.md 3 C02"),
+ "C03": ("NECESSARY CONDITIONS ONLY (equality of the display widths of all rendered lines is arithmetic over run-time strings and is not decided): one width source per render with max-updates only; rule-line and content-line arithmetic agree (K == 2*len(J) read from the code) with one slot and one divider per column in both builders; layout and emit share one measure; every glyph the emitter reads is guaranteed non-empty by Populate, built-ins are populated or boxless, glyph constants are single non-combining runes; the sequence of rule/content lines is the documented one with the bottom rule on every successful path.",
+         "sibling/table agreement rules over SSA constants and call sequences; Populate dependency-order check", "Each glyph is assumed one cell wide in the terminal.", "DESIGN.md 3 C03"),
+ "C04": ("NECESSARY CONDITIONS ONLY (that text survives unmodified and pad counts for all inputs are value-level): effective alignment = own setting else column-0 default (dataflow: the default flows to the same destination on the own-is-nil edge); slot wiring uses one index for text, width and alignment; line l/column c of a row is line l of cell c, blanks for missing; padding = available - W clamped at 0 with the text exactly once and the documented side/split per alignment (linear identities over SSA); declared width/height reach layout and the single-line declared width reaches the padding.",
+         "index-agreement and linear-identity rules on SSA; nil-edge dataflow for the effective property", "strings.Repeat(\" \", n) is n spaces.", "DESIGN.md 3 C04"),
+ "C05": ("Taint analysis (cell text -> writer only through a function recognised by its body as an RFC 4180 all-fields quoter, constants and the constant-only separator field otherwise), refusal of column-less tables before the first write, header-first/rows-in-order/separators-skipped structure, per-record shape (one field per column index, quoted cell where the row has one and the quoted empty field otherwise, separator before every field but the first, one terminator), and the quoter's buffer arithmetic via the index-safety prover. Does not decide the byte-for-byte round trip.",
+         "interprocedural taint on SSA with sanitizers recognised by shape; dominance/refusal rules; linear edge-condition checks", "fmt.Fprint of one string writes that string.", "DESIGN.md 3 C05"),
+ "C06": ("The only write is html/template's Execute of a template parsed from a string constant on plain-string data; no conversion to html/template's trusted types anywhere in the package; template functions return no trusted type except the caller's own row-class result; the template constant is parsed statically (text/template/parse) and its tag skeleton, attributes, guards, range/if nesting (rows in order, separators skipped, one th/td per cell) and the two RowClass uses (0 / OnePlus of the Rows range index, under HaveRowClass) are checked, as are the Go bindings of Rows/Headers/CellsOf/OnePlus/RowClass. html/template's escaper itself is trusted.",
+         "static parse of the embedded template DSL + SSA checks of its function bindings and of trusted-type conversions", "html/template escapes plain strings contextually.", "DESIGN.md 3 C06"),
+ "C07": ("Taint (only constants and json.Marshal output are written), every documented refusal is a branch returning a non-nil error that cannot be reached once anything has been written, the comma state machine (any array-level write that may contain a comma is followed by an object emission on every path before the loop comes round or the array closes), object shape (braces, separators, key before value with the same index, skip rule), and skipable = own else column-0 default. encoding/json is trusted for value/key syntax.",
+         "taint on SSA; reachability/dominance rules for validation-before-output; path rule for the comma state machine", "encoding/json output is valid JSON.", "DESIGN.md 3 C07"),
+ "C08": ("Taint (cell text -> writer only through a function recognised by its body as html.EscapeString first, then '|' and LF to numeric entities), refusals before output, header/delimiter/rows sequence with separators skipped, pipe bookkeeping per line (shape), every dash run proved >= 3 by the linear prover, colon placement per alignment arm, and the effective-alignment rule shared with the text renderer. Entity-decoding equality is not decided.",
+         "taint on SSA with sanitizer shape; linear prover for the dash clamp; sibling agreement with the text renderer's alignment resolution", "html.EscapeString escapes <, >, &, ' and \".", "DESIGN.md 3 C08"),
+ "C09": ("Panic-freedom as a finite set of instruction-level obligations (index, slice, make/Repeat size, division, unchecked assertion, explicit panic, dereference of a possibly-nil result) in every library function, each discharged for all table shapes by an abstract interpretation over SSA: linear facts from definitions, dominating branches, inductive loop invariants, memory forwarding, module-wide field facts proved at every writer, callee summaries and call-site requirements (depth <= 3), decided by Fourier-Motzkin; out-of-quantifier panics are tabled with machine-checked premises; every Render returns \"\" with every non-nil error. "
+         "This is the property static analysis suits best: all 140+ obligations must be discharged, an undecided one is an alarm.",
+         "abstract interpretation over SSA with linear-arithmetic entailment (Fourier-Motzkin), interprocedural requires/summaries, tabled premises", "Standard library and width dependencies do not panic on the arguments given; Table implementers are the module's.", "DESIGN.md 2.2, 3 C09"),
+ "C10": ("NECESSARY CONDITIONS ONLY (byte identity across creation paths is not decided): symbolic execution of the registration function for every owner type a wrapper can pass shows the measuring callback reaches the core table (or the error is checked), with an interface arm for foreign Table implementations; package-level Render/RenderTo/New are pure delegations; Render is RenderTo into a fresh buffer; no wrapper overrides a Table method and no renderer asserts a Table to a concrete table type.",
+         "symbolic path enumeration of the registration switch; delegation-shape and method-set rules", "Method promotion forwards calls unchanged.", "DESIGN.md 3 C10"),
+ "C11": ("Error routing on every path: each store to the error list is an empty make, an append of an error a dominating test shows non-nil, or a spread append guarded by the scan idiom; no adoption of caller slices; container methods tolerate nil receivers; Errors() is nil or non-empty (proved); every installed row shares the table's container; swallow-before-divert ordering; every errTaker handed to the callback invoker is non-nil by construction (recursively through parameters and callers); the invoker passes every non-nil result on.",
+         "who-writes + dominance rules; nil-ness by construction through the call graph", "All writers of the list are in the module.", "DESIGN.md 3 C11"),
+ "C12": ("Immutability of property-chain links after construction (every store to a link field initialises a link allocated in the same function) - which is exactly what makes copies of an owner independent; SetProperty installs the stripped remainder of the CURRENT chain for the SAME key or a fresh link on it, on every path; the strip's result pairs; lookup structure; single writer of the chain head; column handles are the stored pointers (no address into the growable slice escapes). The induction to map semantics is argued, not mechanised.",
+         "who-writes/freshness analysis, must-store dataflow, alias-escape rule", "Interface == compares type and value.", "DESIGN.md 3 C12"),
+ "C13": ("The registration function is executed symbolically for all 48 (owner type x target x time) combinations plus wrapper/unknown owners and compared with the documented matrix; the time->list mapping of registration and invocation must agree; every invocation site is classified by (role, time, loop depth) and each function's sequence in execution order must equal the documented add-time events / render nesting, unconditionally and once; targets handed to callbacks are pointers into the table's own structure; one callback pass per RenderTo before measuring and writing.",
+         "symbolic path enumeration; call-site sequence agreement in reverse post-order; live-object (address-root) rule", "Callbacks do not re-enter the building API.", "DESIGN.md 3 C13"),
+ "C14": ("NECESSARY CONDITIONS ONLY (byte equality of successive renders is not decided): the interprocedural mod-set of every RenderTo/Render is inside a short allowlist (cell measurement properties, cached template, error list), measurement keys are private pointers of unexported types, built-in callbacks recompute from the cell and never read back, and fail only when not given a cell.",
+         "interprocedural effects/mod-set analysis with parametric origins", "User callbacks are excluded, as the property allows.", "DESIGN.md 3 C14"),
  "C15": ("Static error-discipline rule W1 at every call that is handed the destination writer (exhaustive over write sites, hence over every failure point and table): the error is returned or nil-tested before any further write and the failure branch returns it without writing. "
          "Decides 'a failing write always surfaces and nothing is written after it'; the byte-prefix clause follows structurally; no-panic is C09's.",
          "SSA dataflow: must-check-before-next-write rule over every io.Writer call site",
@@ -20,6 +51,10 @@ CHECKS = {
          "Decides data-race freedom of the registry for all schedules and the fail-closed behaviour; does not decide last-writer-wins (map semantics).",
          "lock-held forward must-dataflow on the CFG; dominance rules; table agreement",
          "Assumes sync.Mutex semantics and Go map semantics.", "DESIGN.md 3 C17"),
+ "C18": ("SMALL PART ONLY (the numeric clauses over all strings are not decided): the three LongestLine* functions are structural siblings (split with Lines, measure only with their own String*, running maximum guarded by '>' over a loop visiting every line); one newline splitter and one cell measure shared by Cell, layout and emit; the height formula and Lines agree on separator and trailing rule (shape rule); the measuring callback's index obligations are discharged.",
+         "sibling-agreement rules on SSA; shape comparison of two formulas; index-safety obligations", "strings.Split/Count/HasSuffix as documented.", "DESIGN.md 3 C18"),
+ "C19": ("STATIC AGREEMENT ONLY (run-time registry contents are not decided): listing constants are cases of the style switch and every renderer sub-package is listed, on top of the registry's names, sorted last; the switch tag is ToLower(Split(style, \".\")[0]) and each sub-package case returns that package's Wrap(t); the texttable and default arms name the decoration by the un-lowered section 1 (only when present) / section 0; built-in names contain no dot and collide with no case.",
+         "table-agreement rules between the listing, the dispatch switch and the decoration constants", "strings.Split/ToLower/sort.Strings as documented.", "DESIGN.md 3 C19"),
 }
 
 NA = {}
